@@ -158,6 +158,24 @@ class G:
 def run(x):
     g = G(); return [g.get(x), g.get(x), g._t]
 '''),
+    ("N3 table of tuples with module references + N11 folding", "boolean_constants_folded", '''
+import math
+_CORE = (("a", "x", True, math.pi), ("b", "y", False, math.e))
+def pick(attrs, ds):
+    out = {}
+    for attr, fallback, required, val in _CORE:
+        if attr in attrs:
+            out[attrs[attr]] = val
+        elif required or fallback in ds:
+            out[ds[fallback]] = val
+    return out
+def run(x):
+    res = []
+    for attrs, ds in (({"a": "A"}, {"x": "X", "y": "Y"}), ({}, {"x": "X"}), ({"b": "B"}, {"x": "X2"}), ({}, {"y": "Y"} if x else {"x": "X"})):
+        try: res.append(sorted(pick(attrs, ds).items()))
+        except KeyError as e: res.append("KeyError" + str(e))
+    return res
+'''),
     ("N9 all() over a literal tuple", "any_all_expanded", '''
 def run(x):
     return [all(v > x for v in (3, 4, 5)), any(v == x for v in (1, 2))]
